@@ -184,6 +184,17 @@ def rule_chain_interpreter(ctx, p, cfg, rid="F1"):
                         none_t = si.target_of("None")
                         r.require(none_t is not None and ac.block in d.reach(none_t, avoid={fc.block}, include_src=True), "exhaustion-delivers", fn=d,
                                   detail="all-Neutral (iterator exhausted) reaches Append::append")
+        # nothing but the chain decides: a return reached before any filter was asked, the list was stepped or the sink was called is a verdict of the appender wrapper itself
+        early = [rb for rb in d.return_blocks() if rb in d.reach(0, avoid={fc.block, ac.block} | set(nb), include_src=True)]
+        r.require(not early, "no-verdict-outside-the-chain", fn=d,
+                  detail="every return of %s lies behind a filter call, the iterator step or the sink call" % d.path,
+                  fail_detail="%s can return (block %s) before any filter is consulted and without calling the sink: records are dropped by a test that is not part of the appender's filter chain (an Accept declared first never gets its say)" % (d.path, early[:3]))
+        # .. and the facade entry point hands every record it is given to the node's delivery function
+        ll, site = ro["log_log"], ro["node_log_site"]
+        skipped = [rb for rb in ll.return_blocks() if rb in ll.reach(0, avoid={site.block}, include_src=True)]
+        r.require(not skipped, "log-always-dispatches", fn=ll, site=site.at,
+                  detail="every return of Log::log lies behind the call of %s" % site.callee,
+                  fail_detail="Log::log can return (block %s) without calling %s: a record the configuration admits is dropped on a condition that is no part of the configuration (a per-thread flag, a counter, ..)" % (skipped[:3], site.callee))
         # result of the appender is what is returned on the deliver path
         ret = d.local_expr(0)
         r.require(any(x[0] == "call" and x[1] == APPEND for x in walk(ret)), "appender-result-returned", fn=d,
